@@ -56,7 +56,8 @@ TopActs ==
   \cup {F([op |-> "transform_top", kwf |-> kwf], fl) : kwf \in S(Pools._top.kwf), fl \in CowInp}
   \cup {F([op |-> "reset_top"], fl) : fl \in CowInp}
 
-Acts == UNION {ScalarActs(a) \cup ElemActs(a) : a \in AttrSet(CT, Root)} \cup TopActs
+PropActs == UNION {{[op |-> "read", p |-> p], [op |-> "delprop", p |-> p]} \cup {[op |-> "override", p |-> p, v |-> v] : v \in S(Pools._top.ovp)} : p \in PropNames(CT, Root)}
+Acts == UNION {ScalarActs(a) \cup ElemActs(a) : a \in AttrSet(CT, Root)} \cup TopActs \cup PropActs
 
 RECURSIVE SmallVal(_)
 SmallVal(v) == CASE v.t \in {"list", "klist", "kset", "tuple"} -> Len(v.e) <= MaxLen /\ \A j \in 1..Len(v.e) : SmallVal(v.e[j])
@@ -75,6 +76,8 @@ Spec == Init /\ [][Next]_vars
 
 \* C03: managed attributes always satisfy their declared type (recursively through nested instances)
 InvTypeOK == TypeOKObj(CT, o)
+\* C11: no cached derived value is stale, in any reachable state
+InvFresh == Fresh(CT, o)
 \* C04 (value level): a failing call is never partially committed; C07: frozen instances only evolve by copy
 PropAtomic == [][last'.res # {"ok"} => o' = o]_vars
 \* C05 lemma: obj.a = v  is  with_a(v, _inplace=True);  copy-on-write and in-place forms compute the same value
